@@ -44,7 +44,12 @@ pub enum CompileOutcome {
 }
 
 pub fn compile(pat: &[u32], f: Flags, no_opt: bool) -> CompileOutcome {
+    let slot = MY_SLOT.with(|s| s.clone());
+    if let Some((_, _, _, t0)) = WATCH.get() {
+        slot.started_ms.store(t0.elapsed().as_millis() as u64 + 1, std::sync::atomic::Ordering::Relaxed);
+    }
     let r = catch_unwind(AssertUnwindSafe(|| regress::Regex::from_unicode(pat.iter().copied(), rflags(f, no_opt))));
+    slot.started_ms.store(0, std::sync::atomic::Ordering::Relaxed);
     match r {
         Ok(Ok(re)) => CompileOutcome::Ok(re),
         Ok(Err(e)) => CompileOutcome::Err(e.text),
@@ -157,9 +162,59 @@ pub fn max_bts() -> usize {
     0
 }
 
+// ---------------------------------------------------------------- wall-clock watchdog
+// Fuel bounds every search in interpreter steps. A loop that spins *inside* one step (or anywhere the step
+// hook is not reached) never spends fuel, so every guarded call also registers its start time; a watchdog
+// thread reports a call that has not returned within the wall horizon as a violation of the running property
+// and ends the process (the spinning thread cannot be stopped any other way).
+pub struct Slot {
+    pub started_ms: std::sync::atomic::AtomicU64, // 0 = idle
+    pub desc: std::sync::Mutex<String>,
+}
+static SLOTS: std::sync::Mutex<Vec<std::sync::Arc<Slot>>> = std::sync::Mutex::new(Vec::new());
+static WATCH: std::sync::OnceLock<(String, String, String, std::time::Instant)> = std::sync::OnceLock::new();
+thread_local! {
+    static MY_SLOT: std::sync::Arc<Slot> = {
+        let s = std::sync::Arc::new(Slot { started_ms: std::sync::atomic::AtomicU64::new(0), desc: std::sync::Mutex::new(String::new()) });
+        SLOTS.lock().unwrap().push(s.clone());
+        s
+    };
+}
+
+/// Describe what this thread is about to run (pattern, flags, ...); cheap, called once per pattern.
+pub fn set_case_desc(d: String) {
+    MY_SLOT.with(|s| *s.desc.lock().unwrap() = d);
+}
+
+/// Start the watchdog for a check (property id, tier, level). Idempotent.
+pub fn start_watchdog(pid: &str, tier: &str, level: &str) {
+    if WATCH.set((pid.to_string(), tier.to_string(), level.to_string(), std::time::Instant::now())).is_err() {
+        return;
+    }
+    let horizon_s: u64 = std::env::var("VERIF_HANG_SECS").ok().and_then(|s| s.parse().ok()).unwrap_or(if tier == "thorough" { 120 } else { 45 });
+    std::thread::spawn(move || loop {
+        std::thread::sleep(std::time::Duration::from_millis(500));
+        let (pid, tier, level, t0) = WATCH.get().unwrap();
+        let now = t0.elapsed().as_millis() as u64 + 1;
+        let slots: Vec<std::sync::Arc<Slot>> = SLOTS.lock().unwrap().clone();
+        for s in slots {
+            let st = s.started_ms.load(std::sync::atomic::Ordering::Relaxed);
+            if st != 0 && now > st + horizon_s * 1000 {
+                let desc = s.desc.lock().map(|d| d.clone()).unwrap_or_default();
+                crate::report::emergency_violation(pid, tier, level, &format!("a call into the subject has not returned after {} s of wall time (and spent no fuel: the loop does not pass the step hook)", horizon_s), &desc);
+            }
+        }
+    });
+}
+
 fn run_guarded<T>(fuel: u64, f: impl FnOnce() -> T) -> Outcome<T> {
     reset_fuel(fuel);
+    let slot = MY_SLOT.with(|s| s.clone());
+    if let Some((_, _, _, t0)) = WATCH.get() {
+        slot.started_ms.store(t0.elapsed().as_millis() as u64 + 1, std::sync::atomic::Ordering::Relaxed);
+    }
     let r = catch_unwind(AssertUnwindSafe(f));
+    slot.started_ms.store(0, std::sync::atomic::Ordering::Relaxed);
     match r {
         Ok(v) => Outcome::Ok(v),
         Err(payload) => {
